@@ -319,6 +319,24 @@ func WorldsSpecial(yield func(u *Universe, desc string)) {
 // `$id`, and resource `$id`s with and without a trailing empty fragment ("e.json#" names the same
 // resource as "e.json"; it is the spelling the draft-07 meta-schema itself uses).
 func Worlds07(yield func(u *Universe, desc string)) {
+	// a document root that has a $ref beside its $id: draft-07 ignores the $id there too, so relative
+	// references resolve against the retrieval URI (the two candidate targets carry different markers)
+	for i, w := range []struct{ root, mid string }{
+		{`{"$schema":"http://json-schema.org/draft-07/schema#","$id":"http://other/dir/root.json","$ref":"e.json"}`, ``},
+		{`{"$schema":"http://json-schema.org/draft-07/schema#","$id":"sub/root.json","$ref":"e.json"}`, ``},
+		{`{"$schema":"http://json-schema.org/draft-07/schema#","allOf":[{"$ref":"mid.json"}]}`, `{"$id":"http://other/dir/mid.json","$ref":"e.json"}`},
+		{`{"$schema":"http://json-schema.org/draft-07/schema#","$id":"http://h/root.json","properties":{"p":{"$ref":"mid.json"}}}`, `{"$id":"sub/mid.json","$ref":"e.json","definitions":{"x":{"$ref":"e.json"}}}`},
+	} {
+		docs := map[string]string{"http://h/e.json": `{"const":1}`, "http://other/dir/e.json": `{"const":2}`, "http://h/sub/e.json": `{"const":3}`}
+		if w.mid != "" {
+			docs["http://h/mid.json"] = w.mid
+		}
+		u := &Universe{Root: w.root, Base: "http://h/root.json", Docs: docs, Kind: "world-07"}
+		for _, v := range []string{"1", "2", "3", "9"} {
+			u.Insts = append(u.Insts, v, `{"p":`+v+`}`)
+		}
+		yield(u, fmt.Sprintf("draft-07 root with $id beside $ref, variant %d", i))
+	}
 	roots := []string{"", "http://h/root.json#", "http://h/dir/root.json", "root.json#"}
 	eids := []string{"e.json#", "http://h/dir/x.json#", "dir/e.json", "e.json", "http://h/dir/x.json"}
 	refs := []string{"#", "#/definitions/t", "#k", "#/definitions/e", "#/definitions/e/definitions/t", "e.json", "e.json#", "e.json#k", "e.json#/definitions/t", "http://h/dir/x.json", "http://h/dir/x.json#", "http://h/dir/x.json#k", "http://h/dir/x.json#/definitions/t",
